@@ -60,8 +60,6 @@ Definition msg_eqb (a b : msg) : bool :=
 
 (** The C14 monitor: [m'] (what [Deserialize (Serialize m)] returned) is the
     message [m], up to the numeric kinds of the format and nil/empty. *)
-Definition roundtrip_ok (fm : format) (m m' : msg) : bool :=
-  msg_eqb (msg_norm (canon_msg fm m)) (msg_norm m').
 
 (** field-wise numeric equivalence of two messages (cross-format agreement) *)
 Definition fval_equiv (a b : fval) : bool :=
@@ -83,3 +81,21 @@ Fixpoint fvals_equiv (a b : list fval) : bool :=
 
 Definition msg_equiv (a b : msg) : bool :=
   String.eqb (m_struct a) (m_struct b) && fvals_equiv (m_fields a) (m_fields b).
+
+(** The C14 monitor: [m'] (what [Deserialize (Serialize m)] returned) is the
+    message [m], up to the numeric kinds of the format and nil/empty.  For the
+    binary formats the kinds are predicted exactly ([canon]); for JSON a float
+    may legitimately come back as the integer it is exactly equal to (a
+    binary64 from 2^52 upwards is written without a fraction), so messages are
+    compared up to numeric equivalence. *)
+Definition roundtrip_ok (fm : format) (m m' : msg) : bool :=
+  match fm with
+  | FJson => msg_equiv (canon_msg fm m) m'
+  | _ => msg_eqb (msg_norm (canon_msg fm m)) (msg_norm m')
+  end.
+
+Definition value_roundtrip_ok (fm : format) (v v' : value) : bool :=
+  match fm with
+  | FJson => value_equiv (canon fm v) v'
+  | _ => value_eqb (canon fm v) v'
+  end.
